@@ -22,6 +22,8 @@ pub struct PriceScenario {
     pub ledger_entries: Vec<String>,
     pub price_db: String,
     pub dates: Vec<NaiveDate>,
+    /// commodities declared in the ledger (the others are only known through the events that mention them)
+    pub declared: Vec<String>,
 }
 
 const QTYS: &[(i128, u32)] = &[(1, 0), (2, 0), (10, 0), (3, 0), (5, 1), (100, 0), (4, 0), (25, 1)];
@@ -48,6 +50,9 @@ impl PriceScenario {
         let mut forms = Vec::new();
         let mut ledger_entries = Vec::new();
         let mut price_db = String::new();
+        // running balance of Assets:Trade per commodity, so that a priced posting can also carry a
+        // (true) balance assertion
+        let mut held: std::collections::BTreeMap<String, Q> = std::collections::BTreeMap::new();
         for k in 0..n_events {
             let xi = rng.usize(n_comm);
             let mut yi = rng.usize(n_comm);
@@ -76,21 +81,25 @@ impl PriceScenario {
             } else {
                 let kind = rng.below(5);
                 let head = format!("{} PRICE{}Q\n", d, k + 1);
+                let signed_qty = if neg { qty.neg() } else { qty };
+                let after = held.get(&x).copied().unwrap_or(Q::ZERO).add(signed_qty).unwrap();
+                held.insert(x.clone(), after);
+                let assertion = if rng.chance(1, 4) { format!(" = {} {}", q_text(after).unwrap(), x) } else { String::new() };
                 let (body, ev) = match kind {
                     0 => (
-                        format!("    Assets:Trade    {} {} @ {} {}\n    Equity:Trade\n", qty_txt, x, q_text(rate).unwrap(), y),
+                        format!("    Assets:Trade    {} {} @ {} {}{}\n    Equity:Trade\n", qty_txt, x, q_text(rate).unwrap(), y, assertion),
                         Event { date, source: Source::Ledger, x: x.clone(), qty_x: Q::ONE, y: y.clone(), qty_y: rate },
                     ),
                     1 => (
-                        format!("    Assets:Trade    {} {} @@ {} {}\n    Equity:Trade\n", qty_txt, x, q_text(total).unwrap(), y),
+                        format!("    Assets:Trade    {} {} @@ {} {}{}\n    Equity:Trade\n", qty_txt, x, q_text(total).unwrap(), y, assertion),
                         Event { date, source: Source::Ledger, x: x.clone(), qty_x: qty, y: y.clone(), qty_y: total },
                     ),
                     2 => (
-                        format!("    Assets:Trade    {} {} {{{} {}}}\n    Equity:Trade\n", qty_txt, x, q_text(rate).unwrap(), y),
+                        format!("    Assets:Trade    {} {} {{{} {}}}{}\n    Equity:Trade\n", qty_txt, x, q_text(rate).unwrap(), y, assertion),
                         Event { date, source: Source::Ledger, x: x.clone(), qty_x: Q::ONE, y: y.clone(), qty_y: rate },
                     ),
                     3 => (
-                        format!("    Assets:Trade    {} {} {{{{{} {}}}}}\n    Equity:Trade\n", qty_txt, x, q_text(total).unwrap(), y),
+                        format!("    Assets:Trade    {} {} {{{{{} {}}}}}{}\n    Equity:Trade\n", qty_txt, x, q_text(total).unwrap(), y, assertion),
                         Event { date, source: Source::Ledger, x: x.clone(), qty_x: qty, y: y.clone(), qty_y: total },
                     ),
                     _ => (
@@ -111,12 +120,17 @@ impl PriceScenario {
             }
             forms.push(form);
         }
-        PriceScenario { commodities, events, forms, ledger_entries, price_db, dates }
+        let declared: Vec<String> = commodities.iter().filter(|_| rng.chance(1, 2)).cloned().collect();
+        // price-DB lines in random order (a date-sorted or arbitrarily ordered file is equally valid)
+        let mut lines: Vec<&str> = price_db.lines().collect();
+        rng.shuffle(&mut lines);
+        let price_db: String = lines.iter().map(|l| format!("{}\n", l)).collect();
+        PriceScenario { commodities, events, forms, ledger_entries, price_db, dates, declared }
     }
 
     /// `commodity X` declarations (so that every commodity is known even if only the price DB mentions it).
     pub fn declarations(&self) -> String {
-        self.commodities.iter().map(|c| format!("commodity {}\n\n", c)).collect()
+        self.declared.iter().map(|c| format!("commodity {}\n\n", c)).collect()
     }
 
     pub fn ledger_text(&self) -> String {
